@@ -2,8 +2,9 @@
 From Coq Require Import List Arith Lia Bool Permutation.
 From Kiki Require Import Base.Ord Base.Chars Data Oset.Model Lex.Model LR.Driver LR.Grammar LR.Inv LR.Complete LR.Sound LR.ErrPos
   LR.Validate LR.ValidateProofs Front.Parse Front.FrontProofs Ast.Validate Ast.ValidateProofs Ast.VWF
-  Build.Machine Build.DetProofs Build.Table Build.TableProofs Build.FillProofs Build.TableSpec Build.GenCorrect
-  Emit.Emit Emit.Parser Pipeline.
+  Build.Machine Build.DetProofs Build.Table Build.TableProofs Build.FillProofs Build.TableSpec Build.GenCorrect Np Build.NoPanic
+  Emit.Emit Emit.Parser Emit.NoPanic Pipeline.
+From Kiki Require Gen.Template.
 Import ListNotations.
 
 (* any iteration order of the two hash collections *)
@@ -112,3 +113,37 @@ Section Emitted.
     rewrite E1 in E2. congruence.
   Qed.
 End Emitted.
+
+(* ---------- C07: after the front end, nothing can panic ---------- *)
+
+Theorem back_end_never_panics ho digest src v :
+  perm_hash_order ho -> front_end src = Ok v -> np (generate_model ho digest src).
+Proof.
+  intros (Hpt & Hpa) Hv. pose proof (front_end_VWF src v Hv) as HV.
+  unfold generate_model, generate_full. rewrite Hv. cbn [bind]. unfold middle.
+  pose proof (np_validated_ast_to_machine (ho_transitions ho) (fuels_for 0 v) v Hpt) as Hnm.
+  destruct (validated_ast_to_machine (ho_transitions ho) (fuels_for 0 v) v) as [m|e|s|s] eqn:Em; cbn [bind];
+    [|apply np_err|exfalso; apply (Hnm s); reflexivity|apply np_oof].
+  pose proof (np_machine_to_table_of_generated _ (ho_table ho) _ v m HV Hpt Hpa Em) as Hnt.
+  destruct (machine_to_table (ho_table ho) m v) as [t|e|s|s] eqn:Et; cbn [bind];
+    [|apply np_err|exfalso; apply (Hnt s); reflexivity|apply np_oof].
+  pose proof (machine_to_table_spec m v (ho_table ho) t Hpa Et) as HT.
+  pose proof (np_table_to_rust (fu_unique (fuels_for 0 v)) Gen.Template.file_template Gen.Template.template_consts t v
+                (length (m_states m)) digest HV (ts_shape m v t HT) (ts_terminals m v t HT) (ts_nonterminals m v t HT)
+                regenerated_template_holes_ok) as Hne.
+  destruct (table_to_rust _ _ _ t v digest) as [tx|e|s|s]; cbn [bind];
+    [apply np_ok|apply np_err|exfalso; apply (Hne s); reflexivity|apply np_oof].
+Qed.
+
+(* C07, the "never panics" half, for every string: no unwrap, index, slice or "impossible"
+   arm of the modelled pipeline is reachable — whatever the input text and whatever the
+   iteration orders of the hash collections. *)
+Theorem generate_never_panics ho digest src : perm_hash_order ho -> np (generate_model ho digest src).
+Proof.
+  intros Hho. pose proof (np_front_end src) as Hf.
+  destruct (front_end src) as [v|e|s|s] eqn:Ev.
+  - apply (back_end_never_panics ho digest src v Hho Ev).
+  - unfold generate_model, generate_full. rewrite Ev. apply np_err.
+  - exfalso. apply (Hf s). reflexivity.
+  - unfold generate_model, generate_full. rewrite Ev. apply np_oof.
+Qed.
